@@ -130,43 +130,61 @@ def _zstd_content_size(data: bytes) -> int | None:
 def _decompress_body_zstd(data: bytes, *, max_output_size: int | None = None) -> bytes:
     """Decompress zstd-compressed *data* with optional output cap.
 
-    See :func:`decompress` for the cap semantics.
+    See :func:`decompress` for the cap semantics.  The body is a sequence of
+    one or more complete zstd frames: every frame is decoded, a frame that
+    stops short of its end mark is an error, and so is anything that is not a
+    frame.
     """
     import zstandard
 
-    declared = _zstd_content_size(data)
-
-    if max_output_size is None:
-        # No declared size => a streaming frame; the one-shot API refuses those.
-        # The streaming reader handles both kinds.
-        if declared is None:
-            with zstandard.ZstdDecompressor().stream_reader(data) as reader:
-                return reader.read()
-        return zstandard.ZstdDecompressor().decompress(data)
-
-    # Refuse the frame up-front when the header claims more than allowed.
-    if declared is not None and declared > max_output_size:
-        raise DecompressionLimitExceeded(
-            f"Compressed frame declares decompressed size {declared} bytes, "
-            f"which exceeds max_output_size={max_output_size}"
-        )
-
-    if declared is not None:
-        return zstandard.ZstdDecompressor().decompress(data)
-
-    decompressor = zstandard.ZstdDecompressor()
+    dctx: zstandard.ZstdDecompressor | None = None
     chunks: list[bytes] = []
     total = 0
-    with decompressor.stream_reader(data) as reader:
-        while True:
-            chunk = reader.read(min(_DECOMPRESS_CHUNK_BYTES, max_output_size - total + 1))
-            if not chunk:
-                break
-            total += len(chunk)
-            if total > max_output_size:
-                raise DecompressionLimitExceeded(f"Decompressed output exceeds max_output_size={max_output_size}")
-            chunks.append(chunk)
-    return b"".join(chunks)
+    remaining = data
+    if not remaining:
+        raise DecompressionError("zstd body is empty (not a zstd frame)")
+    while remaining:
+        declared = _zstd_content_size(remaining)
+        if max_output_size is not None:
+            budget = max_output_size - total
+            if declared is not None:
+                # Refuse the frame up-front when the header claims more than
+                # allowed; the decoder itself enforces the declared size.
+                if declared > budget:
+                    raise DecompressionLimitExceeded(
+                        f"Compressed frame declares decompressed size {declared} bytes, "
+                        f"which exceeds max_output_size={max_output_size}"
+                    )
+            else:
+                # A size-less (streaming) frame: measure it with bounded reads
+                # before materializing it, so a bomb costs at most one chunk.
+                seen = 0
+                if dctx is None:
+                    dctx = zstandard.ZstdDecompressor()
+                with dctx.stream_reader(remaining) as reader:
+                    while True:
+                        chunk = reader.read(min(_DECOMPRESS_CHUNK_BYTES, budget - seen + 1))
+                        if not chunk:
+                            break
+                        seen += len(chunk)
+                        if seen > budget:
+                            raise DecompressionLimitExceeded(
+                                f"Decompressed output exceeds max_output_size={max_output_size}"
+                            )
+        if dctx is None:
+            # Only once a frame has passed the declared-size check: a refused
+            # bomb must not cost a decompression context.
+            dctx = zstandard.ZstdDecompressor()
+        frame = dctx.decompressobj()
+        out = frame.decompress(remaining)
+        if not frame.eof:
+            # The streaming reader silently stops at a missing end mark; a
+            # body cut short must not be mistaken for a complete one.
+            raise DecompressionError("zstd frame is truncated")
+        total += len(out)
+        chunks.append(out)
+        remaining = frame.unused_data
+    return chunks[0] if len(chunks) == 1 else b"".join(chunks)
 
 
 def _compress_body_gzip(data: bytes, level: int) -> bytes:
@@ -187,34 +205,38 @@ def _decompress_body_gzip(data: bytes, *, max_output_size: int | None = None) ->
     cannot be trusted for a bomb-cap precheck.  Defence-in-depth is a
     bounded streaming loop: feed input through ``decompressobj`` and
     bail the moment ``max_output_size`` is exceeded.
-    """
-    do = zlib.decompressobj(_GZIP_WBITS)
-    if max_output_size is None:
-        return do.decompress(data) + do.flush()
 
+    The body is a sequence of one or more complete gzip members (RFC 1952):
+    every member is decoded, a member without its trailer is an error, and so
+    is anything after the last member that is not a member.
+    """
     chunks: list[bytes] = []
     total = 0
     remaining = data
-    while remaining or do.unconsumed_tail:
-        if do.unconsumed_tail:
+    if not remaining:
+        raise DecompressionError("gzip body is empty (not a gzip member)")
+    while remaining:
+        do = zlib.decompressobj(_GZIP_WBITS)
+        inbuf = remaining
+        while not do.eof:
+            if max_output_size is None:
+                chunk = do.decompress(inbuf)
+            else:
+                chunk = do.decompress(inbuf, min(_DECOMPRESS_CHUNK_BYTES, max_output_size - total + 1))
+            if chunk:
+                total += len(chunk)
+                if max_output_size is not None and total > max_output_size:
+                    raise DecompressionLimitExceeded(
+                        f"Decompressed gzip output exceeds max_output_size={max_output_size}"
+                    )
+                chunks.append(chunk)
             inbuf = do.unconsumed_tail
-        else:
-            inbuf, remaining = remaining, b""
-        chunk = do.decompress(inbuf, min(_DECOMPRESS_CHUNK_BYTES, max_output_size - total + 1))
-        if chunk:
-            total += len(chunk)
-            if total > max_output_size:
-                raise DecompressionLimitExceeded(f"Decompressed gzip output exceeds max_output_size={max_output_size}")
-            chunks.append(chunk)
-        if not chunk and not do.unconsumed_tail:
-            break
-    tail = do.flush()
-    if tail:
-        total += len(tail)
-        if total > max_output_size:
-            raise DecompressionLimitExceeded(f"Decompressed gzip output exceeds max_output_size={max_output_size}")
-        chunks.append(tail)
-    return b"".join(chunks)
+            if not chunk and not inbuf and not do.eof:
+                # Input exhausted before the member's trailer: a cut-off body
+                # must not be mistaken for a complete one.
+                raise DecompressionError("gzip member is truncated")
+        remaining = do.unused_data
+    return chunks[0] if len(chunks) == 1 else b"".join(chunks)
 
 
 def compress(encoding: Encoding, data: bytes, *, level: int | None = None) -> bytes:
@@ -240,6 +262,8 @@ def decompress(encoding: Encoding, data: bytes, *, max_output_size: int | None =
     pass through rather than 415.
     """
     if encoding is Encoding.IDENTITY:
+        if max_output_size is not None and len(data) > max_output_size:
+            raise DecompressionLimitExceeded(f"Body of {len(data)} bytes exceeds max_output_size={max_output_size}")
         return data
     if encoding is Encoding.ZSTD:
         return _decompress_body_zstd(data, max_output_size=max_output_size)
